@@ -90,7 +90,26 @@ func bigTail(c concrete.Case, b concrete.Built, tail int) (data []byte, l gen.La
 	case "jpeg":
 		data = append([]byte{}, b.Data[:l.PixStart]...)
 	case "webp":
-		if c.File[0].T == "VP8X" {
+		if c.File[0].T == "VP8X" && tail%3 != 0 {
+			// the payload is image data of the extended format ahead of (instead of) the VP8
+			// bitstream: an alpha plane, or the frames of an animation
+			cut := 12
+			for cut+8 <= len(b.Data) && string(b.Data[cut:cut+3]) != "VP8" || cut == 12 {
+				cut += 8 + int(binary.LittleEndian.Uint32(b.Data[cut+4:])+1)&^1
+			}
+			data = append([]byte{}, b.Data[:cut]...)
+			var hdr [8]byte
+			if tail%3 == 1 {
+				copy(hdr[:], "ALPH")
+				data[20] |= 0x10
+			} else {
+				data[20] |= 0x02
+				data = append(data, 'A', 'N', 'I', 'M', 6, 0, 0, 0, 0, 0, 0, 0, 0, 0)
+				copy(hdr[:], "ANMF")
+			}
+			binary.LittleEndian.PutUint32(hdr[4:], uint32(tail))
+			data = append(data, hdr[:]...)
+		} else if c.File[0].T == "VP8X" {
 			data = append([]byte{}, b.Data...)
 			var hdr [8]byte
 			copy(hdr[:], "EXIF")
@@ -155,9 +174,9 @@ func buildCorpus(caseFiles []string, repo string, tier string, rng *rand.Rand) (
 			it := item{Name: fmt.Sprintf("%s#%d.%d", c.Fmt, i+1, v), Fmt: c.Fmt, Data: b.Data, L: b.Layout, HasICC: b.HasICC, Well: wellFormed(c)}
 			items = append(items, it)
 			if it.Well {
-				tails := []int{1 << 20, 64 << 20}
-				if d, l, ok := bigTail(c, b, tails[len(items)%2]); ok {
-					items = append(items, item{Name: it.Name + "+big", Fmt: c.Fmt, Data: d, Tail: tails[len(items)%2], L: l, HasICC: b.HasICC, Well: true})
+				tails := []int{1 << 20, 64 << 20, 1<<20 + 1, 64<<20 - 1, 1<<20 + 2}
+				if d, l, ok := bigTail(c, b, tails[len(items)%5]); ok {
+					items = append(items, item{Name: it.Name + "+big", Fmt: c.Fmt, Data: d, Tail: tails[len(items)%5], L: l, HasICC: b.HasICC, Well: true})
 				}
 			}
 		}
@@ -190,6 +209,37 @@ func buildCorpus(caseFiles []string, repo string, tier string, rng *rand.Rand) (
 	junk["riffwebp+pngchunks"] = append([]byte("RIFF\x00\x10\x00\x00WEBP"), pngBody[8:]...)
 	junk["jpeg-then-png"] = append(append([]byte{}, jpegBody...), pngBody...)
 	junk["png-damaged-ihdr-type"] = func() []byte { d := append([]byte{}, pngBody...); d[13] = 'X'; return d }()
+	// a degenerate structure after (or before) the valid one that carries the metadata: the
+	// parser has extracted something when it trips
+	{
+		prof := gen.SimpleProfile(700, "degenerate", true, 5)
+		sof := gen.SOF(0xC0, 8, 21, 34, gen.StdComps(3, 0x22))
+		for n := 0; n <= 6; n++ {
+			short := gen.Seg(0xC0, make([]byte, n))
+			for _, m := range []byte{0xC0, 0xC2} {
+				short.Marker = m
+				a, _ := gen.BuildJPEG([]gen.JSeg{gen.SOI(), gen.JFIF(), sof, short, gen.DHT(0, 0), gen.SOS(3, gen.EntropyBytes(60, 5)), gen.EOI()})
+				b, _ := gen.BuildJPEG([]gen.JSeg{gen.SOI(), gen.JFIF(), short, sof, gen.DHT(0, 0), gen.SOS(3, gen.EntropyBytes(60, 5)), gen.EOI()})
+				c, _ := gen.BuildJPEG([]gen.JSeg{gen.SOI(), gen.ICCSeg(1, 1, prof), sof, short, gen.SOS(3, gen.EntropyBytes(60, 5)), gen.EOI()})
+				junk[fmt.Sprintf("degenerate:jpeg-sof-then-sof%x/%d", m, n)] = a
+				junk[fmt.Sprintf("degenerate:jpeg-sof%x/%d-then-sof", m, n)] = b
+				junk[fmt.Sprintf("degenerate:jpeg-icc-sof-then-sof%x/%d", m, n)] = c
+			}
+			iccShort := gen.APP(2, append([]byte("ICC_PROFILE\x00"), make([]byte, n%3)...))
+			d, _ := gen.BuildJPEG([]gen.JSeg{gen.SOI(), sof, iccShort, gen.SOS(3, gen.EntropyBytes(60, 5)), gen.EOI()})
+			junk[fmt.Sprintf("degenerate:jpeg-sof-then-icc-short/%d", n%3)] = d
+			ih := gen.Chunk("IHDR", make([]byte, n*2))
+			e, _ := gen.BuildPNG([]gen.PNGChunk{gen.IHDR(5, 6, 8, 2, 0), ih, gen.Chunk("IDAT", gen.Payload(40, 1, false)), gen.Chunk("IEND", nil)})
+			junk[fmt.Sprintf("degenerate:png-ihdr-then-ihdr/%d", n*2)] = e
+			ic := gen.Chunk("iCCP", append([]byte("nameonly")[:n], make([]byte, n%2)...))
+			f, _ := gen.BuildPNG([]gen.PNGChunk{gen.IHDR(5, 6, 8, 2, 0), ic, gen.Chunk("IDAT", gen.Payload(40, 1, false)), gen.Chunk("IEND", nil)})
+			junk[fmt.Sprintf("degenerate:png-ihdr-then-iccp-short/%d", n)] = f
+			g, _ := gen.BuildWebP([]gen.WChunk{gen.VP8X(gen.VP8XICC, 55, 66), gen.WC("ICCP", make([]byte, n)), gen.WC("VP8 ", make([]byte, n))}, -1)
+			junk[fmt.Sprintf("degenerate:webp-vp8x-then-short/%d", n)] = g
+			h, _ := gen.BuildWebP([]gen.WChunk{gen.VP8X(0, 55, 66), gen.WC("VP8X", make([]byte, n)), gen.WC("VP8 ", make([]byte, n))}, -1)
+			junk[fmt.Sprintf("degenerate:webp-vp8x-then-vp8x/%d", n)] = h
+		}
+	}
 	// hostile variants of valid files (the C09 matrix in miniature): declared lengths
 	// and counts driven to boundary values, including the ones that make a parser
 	// panic internally (recovered) - the replay stream and autometa must not care
@@ -582,7 +632,8 @@ func loadsCmd(args []string) error {
 			it := well[i]
 			for li, loader := range []string{it.Fmt, "auto"} {
 				s := scheds[(i+li)%len(scheds)]
-				src := obs.NewSource(it.Data, -1, nil, s)
+				shape := []string{"plain", "rich0", "rich5"}[(i/2+li)%3]
+				src := obs.NewSource(it.Data, -1, nil, s).WithShape(shape)
 				src.Tail = it.Tail
 				src.Cut = len(it.Data) + it.Tail
 				o := obs.Run(loader, src, false, false)
@@ -598,7 +649,7 @@ func loadsCmd(args []string) error {
 				tsrc.Tail, tsrc.Cut = ttail, len(tdata)+ttail
 				to := obs.Run(loader, tsrc, false, false)
 				sink.put(map[string]interface{}{
-					"item": it.Name, "loader": loader, "sched": s.Name,
+					"item": it.Name, "loader": loader, "sched": s.Name, "shape": shape,
 					"layout": map[string]interface{}{"header_end": it.L.HeaderEnd, "icc_end": it.L.ICCEnd, "pix_start": it.L.PixStart, "total": it.L.Total, "has_icc": it.HasICC},
 					"pulled": o.Pulled, "ok": o.OK, "outcome": o.Outcome(), "trunc_outcome": to.Outcome(), "maxreq": o.MaxReq,
 				})
@@ -637,9 +688,12 @@ func loadsCmd(args []string) error {
 		}
 		parallel(len(jobs), func(i int) {
 			j := jobs[i]
-			ev := map[string]interface{}{"item": j.it.Name, "n": len(j.it.Data), "cut": j.cut, "sched": j.s.Name}
+			// all four loaders see the same presentation of the source (plain, or the way
+			// *bytes.Reader / *os.File present themselves, at offset 0 or embedded after foreign bytes)
+			shape := []string{"plain", "rich5", "rich0"}[i%3]
+			ev := map[string]interface{}{"item": j.it.Name, "n": len(j.it.Data), "cut": j.cut, "sched": j.s.Name, "shape": shape}
 			for _, loader := range obs.LoaderNames {
-				src := obs.NewSource(j.it.Data, j.cut, nil, j.s)
+				src := obs.NewSource(j.it.Data, j.cut, nil, j.s).WithShape(shape)
 				o := obs.Run(loader, src, loader == "auto", false)
 				ev[loader] = o.Outcome()
 				if loader == "auto" {
